@@ -5,6 +5,7 @@ import HappyProofs.C13.PhiMono
 import HappyProofs.C13.SafetyInv
 import HappyProofs.C13.Detect
 import HappyProofs.C13.PhiTick
+import HappyProofs.C13.NoDelegate
 /-!
 C13 property theorems (statements about `Spec` predicates and model runs only).
 
@@ -25,6 +26,11 @@ C13 property theorems (statements about `Spec` predicates and model runs only).
   live node `a`, `a` does not report `x` ALIVE for the rest of any run in which nothing from `x`
   (and no "alive" update about `x`) is delivered to `a`.  `failure_detected_full` (the bound in
   probe ticks) is stated and left unproved.
+* `no_delegate_detected`, `unacked_probe_dead_after_suspicion`, `lone_observer_detects`,
+  `lone_observer_within_deadline` — clause 2 when nobody can relay an indirect probe (a pair,
+  `indirect_probe_count = 0`, every other peer DEAD): the ack timeout sends nothing, still suspects and
+  arms the suspicion timer, whose firing makes the member DEAD; a lone observer probes its only peer
+  at every tick, which with the ack timeout lies inside `Spec.detectDeadline` for `n = 2`.
 * `current_unacked_probe_keeps_alive` — witness for the pinned code: probe, ack timeout and
   suspicion timeout of a member that crashed before being heard from leave it ALIVE.
 -/
@@ -355,6 +361,75 @@ example :
     let s := run c (Sys.init c () [[2, 1], [0, 2], [0, 1]] [0, 0, 0]) [.crash 2 0, .tick 0 10 []]
     s.isCrashed 0 = false ∧ (s.node 0).pendOf 2 = some ⟨.ind, 15⟩ ∧
     (run c s [.timeout 0 2 15 [1], .deliver 1 16, .timeout 0 2 20 []]).view 0 2 = .dead := by decide
+
+/-! ### clause 2 with nobody to relay through -/
+
+/-- **no_delegate_detected**: the ack timeout of an un-acked probe of `x` fires at the live node `a`
+    and there is no delegate — `indirect_probe_count = 0`, or the candidate list is empty (a pair;
+    every other peer DEAD: `delegateCands_pair`, `delegateCands_all_dead`).  Then nothing is sent, the
+    suspicion timeout is armed for `now + susp`, and `a` does not report `x` ALIVE after any further
+    quiet run. -/
+theorem no_delegate_detected (c : Cfg) (hfix : c.fix = true) (s : Sys D) (a x now : Nat)
+    (shuf : List Nat) (acts : List Act) (ha : s.isCrashed a = false)
+    (hp : (s.node a).pendOf x = some ⟨.ind, now⟩) (hd : c.indirect = 0 ∨ shuf = [])
+    (hq : QuietRun c a x (step c s (.timeout a x now shuf)) acts) :
+    (step c s (.timeout a x now shuf)).soup = s.soup ∧
+    (step c s (.timeout a x now shuf)).nextId = s.nextId ∧
+    ((step c s (.timeout a x now shuf)).node a).pendOf x = some ⟨.susp, now + c.susp⟩ ∧
+    (run c s (.timeout a x now shuf :: acts)).view a x ≠ .alive :=
+  no_delegate_core c hfix s a x now shuf acts ha hp hd hq
+
+/-- the candidate list handed to `random.shuffle` is empty in a pair and when all others are DEAD -/
+theorem no_delegate_candidates (n a x : Nat) (nd : Node D) :
+    ((n = 2 ∧ a < 2 ∧ x < 2 ∧ a ≠ x) ∨ (∀ y, y < n → y ≠ a → y ≠ x → nd.view y = .dead)) →
+    delegateCands n a x nd = [] := by
+  rintro (⟨hn, ha, hx, hax⟩ | h)
+  · subst hn; exact delegateCands_pair a x nd ha hx hax
+  · exact delegateCands_all_dead n a x nd h
+
+/-- **unacked_probe_dead_after_suspicion**: ack timeout, then the suspicion timeout it armed (nothing
+    in between at `a` about `x`): `a` reports `x` DEAD — whatever the delegates were, none included. -/
+theorem unacked_probe_dead_after_suspicion (c : Cfg) (hfix : c.fix = true) (s : Sys D) (a x now : Nat)
+    (shuf shuf' : List Nat) (ha : s.isCrashed a = false)
+    (hp : (s.node a).pendOf x = some ⟨.ind, now⟩) :
+    (run c s [.timeout a x now shuf, .timeout a x (now + c.susp) shuf']).view a x = .dead :=
+  dead_after_suspicion_core c hfix s a x now shuf shuf' ha hp
+
+/-- **lone_observer_detects**: a live node whose probe order is `[x]` (a pair; or the rest of the
+    cluster is gone) with `x` not DEAD: its next probe tick and the ack timeout of that probe leave
+    `x` not-ALIVE for the rest of any quiet run — one probe round, no delegate needed. -/
+theorem lone_observer_detects (c : Cfg) (hfix : c.fix = true) (s : Sys D) (a x now : Nat)
+    (acts : List Act) (ha : s.isCrashed a = false) (hm : isMember c.n a x = true)
+    (hl : Lone x (s.node a)) (ht : (s.node a).nextTick = now)
+    (hq : QuietRun c a x (run c s [.tick a now [x], .timeout a x (now + c.half) []]) acts) :
+    (run c s (.tick a now [x] :: .timeout a x (now + c.half) [] :: acts)).view a x ≠ .alive :=
+  lone_observer_core c hfix s a x now acts ha hm hl ht hq
+
+/-- **lone_observer_within_deadline**: that round ends inside the deadline the judge applies to a
+    pair (`Spec.detectDeadline 2 k`) whenever the tick comes at most one interval after `crash + δ` -/
+theorem lone_observer_within_deadline (k interval half delta c0 now : Nat)
+    (h : now ≤ c0 + delta + interval) :
+    now + half ≤ Spec.detectDeadline 2 k interval half delta c0 :=
+  pair_deadline k interval half delta c0 now h
+
+/-- non-vacuity: a pair; node 1 crashes before anybody heard from it; node 0 probes it at its first
+    tick, the ack timeout sends nothing (no message id is consumed), arms the suspicion timer, and
+    its firing makes node 1 DEAD; the same with three nodes and `indirect_probe_count = 0` -/
+example :
+    let c : Cfg := ⟨2, 10, 5, 5, 3, true⟩
+    let s := run c (Sys.init c () [[1], [0]] [0, 0]) [.crash 1 0]
+    s.isCrashed 0 = false ∧ isMember c.n 0 1 = true ∧ (s.node 0).order = [1] ∧ s.view 0 1 ≠ .dead ∧
+    (s.node 0).nextTick = 10 ∧ delegateCands 2 0 1 (s.node 0) = [] ∧
+    (run c s [.tick 0 10 [1]]).nextId = 1 ∧
+    (run c s [.tick 0 10 [1], .timeout 0 1 15 []]).nextId = 1 ∧
+    (run c s [.tick 0 10 [1], .timeout 0 1 15 []]).view 0 1 = .suspect ∧
+    (run c s [.tick 0 10 [1], .timeout 0 1 15 [], .timeout 0 1 20 []]).view 0 1 = .dead := by decide
+
+example :
+    let c : Cfg := ⟨3, 10, 5, 5, 0, true⟩
+    let s := run c (Sys.init c () [[2, 1], [0, 2], [0, 1]] [0, 0, 0]) [.crash 2 0, .tick 0 10 []]
+    (s.node 0).pendOf 2 = some ⟨.ind, 15⟩ ∧ (run c s [.timeout 0 2 15 [1]]).nextId = s.nextId ∧
+    (run c s [.timeout 0 2 15 [1], .timeout 0 2 20 []]).view 0 2 = .dead := by decide
 
 /-- **witness for the pinned code** (`fix = false`): the same schedule leaves the crashed member
     ALIVE — the probe went un-acked, the suspicion timer fired, nothing happened. -/
